@@ -7,7 +7,7 @@ from gffutils.exceptions import EmptyInputError
 from gv.model import dbutil
 
 ID = "C14"
-RULE = ("every sequence of length <= n over the line kinds {##directive, ###, #comment, blank, feature, ##FASTA, >header} "
+RULE = ("every sequence of length <= n over the line kinds {##directive, ###, bare ##, #comment, blank, feature, ##FASTA, >header} "
         "(plus sequence text after a FASTA marker) x checklines x input form; each execution drives DataIterator (iterated twice), "
         "create_db(:memory:) and create_db(file)+reopen. Non-trivial = a directive lies after the first checklines+1 features, or "
         "something follows a FASTA marker, or comments/blanks are interleaved with features")
@@ -16,7 +16,7 @@ ASSUMPTIONS = [
     "an input without any feature line makes create_db raise the documented empty-input error; nothing else may raise",
 ]
 
-KINDS = "DTCBFAH"
+KINDS = "DTECBFAH"      # E = a bare "##" line (directive with empty text)
 
 
 def render(seq):
@@ -27,6 +27,8 @@ def render(seq):
             lines.append("##dir%d v%d" % (nd, nd))
         elif k == "T":
             lines.append("###")
+        elif k == "E":
+            lines.append("##")
         elif k == "C":
             lines.append("#comment %d" % len(lines))
         elif k == "B":
@@ -63,7 +65,7 @@ def maxn(tier):
 
 def bounds(tier):
     return dict(line_kinds=list(KINDS), max_len=maxn(tier), checklines=[0, 1, 10], forms=["path", "from_string"],
-                extra_len6_reduced_alphabet="DCBFA" if tier != "quick" else None)
+                extra_len6="full alphabet, path form, checklines 0 and 1" if tier != "quick" else None)
 
 
 def shards(tier):
@@ -79,9 +81,9 @@ def shards(tier):
                         out.append(("full", form, cl, n, a))
     if tier != "quick":
         for cl in (0, 1):
-            for a in "DCBFA":
-                for b in "DCBFA":
-                    out.append(("reduced", "path", cl, 6, a + b))
+            for a in KINDS:
+                for b in KINDS:
+                    out.append(("full", "path", cl, 6, a + b))
     return out
 
 
@@ -121,6 +123,12 @@ def body(ch, ctx):
         ctx.check(got == exp_feats, "iterator-features-differ", dict(sig, round=rnd), text=text, got=got, expected=exp_feats)
         ctx.check(list(it.directives) == exp_dirs, "iterator-directives-differ", dict(sig, round=rnd), text=text,
                   got=list(it.directives), expected=exp_dirs)
+    # another iterator over another file lives at the same time: each keeps its own directives
+    other = gffutils.DataIterator(dbutil.write_text(wd, "other.gff", "##other directive\nc9\ts\tgene\t1\t2\t.\t+\t.\tID=o1\n"), checklines=cl)
+    n_other = len(list(other))
+    ctx.check(n_other == 1 and list(other.directives) == ["other directive"], "second-iterator-wrong", sig, got=list(other.directives))
+    ctx.check(list(it.directives) == exp_dirs, "iterator-directives-changed-by-another-iterator", sig, text=text,
+              got=list(it.directives), expected=exp_dirs)
     for kind in ("memory", "file"):
         dbfn = ":memory:" if kind == "memory" else os.path.join(wd, "o.db")
         try:
